@@ -164,6 +164,9 @@ class Problem:
             if s == "smc":
                 kw["rng"] = np.random.default_rng(case["seed"])
                 kw["sampler_kwargs"] = {"n_steps": case["kernel_steps"], "step_fn": "rw"}
+                if nf and case["seed"] % 2 == 0:
+                    # option read by SMCSampler.sample: a different number of kernel steps for the enlarged final population
+                    kw["sampler_kwargs"]["n_final_steps"] = case["kernel_steps"] + 2
             else:
                 kw["sampler_kwargs"] = {"nsteps": case["kernel_steps"], "progress": False}
             if checkpoint_cb is not None:
